@@ -213,6 +213,16 @@ def step (st : St) (j : Json) : St × List String :=
       | .err _ => "fields err"
       | .panic s => "fields panic:" ++ s
     (st, [line])
+  | "nildef" =>
+    -- a definition unmarshalled without schema validation: null entries are nil pointers
+    let d := jObj j "rawDef"
+    let optList {α} (k : String) (f : Json → α) : List (Option α) := (jArr d k).map (fun x => if x.isNull then none else some (f x))
+    let raw : RawPD := { id := jStr d "id", descs := optList "descs" parseDesc, srs := optList "srs" parseSR, nestedNull := jBool d "nestedNull" }
+    let w := walletOf st (jObj j "wallet")
+    let re := reOf st.re
+    let cls {α} (r : Res α) : String := match r with | .ok _ => "ok" | .err e => "err:" ++ e | .panic s => "panic:" ++ s
+    let req := match credentialsRequiredRaw cfg raw with | .ok b => toString b | .err e => "err:" ++ e | .panic s => "panic:" ++ s
+    (st, [s!"nildef match={cls (pdMatchRaw cfg re raw w)} required={req} build={cls (buildRaw cfg re raw [w])} fields={cls (resolveFieldsRaw cfg re raw (w.map (fun c => ("d1", c))))}"])
   | o => (st, ["bad-op:" ++ o])
 
 end Nuts.Drv.C12
